@@ -159,10 +159,45 @@ pub open spec fn all_ok(v: Seq<Result<String, Error>>) -> bool { forall|i: int| 
     b.verified_fn('main.rs', 'repetition_options_parser', props=['C07'], fname='repetition_options_parser',
                   clauses=[Clause('cli.parser_rejects_zero', 'r is Ok ==> r->Ok_0 > 0', ['C12', 'C07'])],
                   extra_rules=[('R13', r'value\.parse::<u32>\(\)', 'vx_parse_u32(value)', 'str::parse::<u32> (uninterpreted)')])
+    # the tail of the Ok arm: the build result goes to standard output followed by exactly one newline, and the run succeeds (exit status 0)
+    tail, _, _ = X.stmt_range(hi, 'let regexp = builder.build();', 'Err(error) => match')
+    k = tail.rfind('Ok(())')
+    if k < 0: raise X.LostAnchor('main.rs::handle_input: Ok(()) after the output')
+    tail = tail[:k + len('Ok(())')]
+    b.emit("""pub uninterp spec fn build_text(b: RegExpBuilder) -> Seq<char>;       // what the library's build() returns for this builder (the pipeline; opaque here)
+impl RegExpBuilder { #[verifier::external_body] pub fn build(&mut self) -> (r: String) ensures r@ == build_text(*old(self)), *final(self) == *old(self) { unimplemented!() } }
+// standard output as a ghost text; println!("{}", x) writes x followed by one line feed, print! writes x alone (std)
+pub struct VxStdout { pub text: Ghost<Seq<char>> }
+impl VxStdout {
+    #[verifier::external_body] pub fn vx_println(&mut self, s: &String) ensures final(self).text@ == old(self).text@ + s@ + seq!['\\n'] { unimplemented!() }
+    #[verifier::external_body] pub fn vx_print(&mut self, s: &String) ensures final(self).text@ == old(self).text@ + s@ { unimplemented!() }
+}""")
+    def out_rules(t, log, w):
+        t2 = re.sub(r'\bprintln!\("\{\}", (\w+)\);', r'vx_out.vx_println(&\1);', t)
+        t2 = re.sub(r'\bprint!\("\{\}", (\w+)\);', r'vx_out.vx_print(&\1);', t2)
+        if t2 != t: log.add('R37', w, 'println!("{}", X); / print!("{}", X);', 'vx_out.vx_println(&X); / vx_out.vx_print(&X); -- standard output as a ghost text (parameter of the slice)')
+        return t2
+    b.slice_fn('handle_input_output', 'pub fn handle_input_output(builder: &mut RegExpBuilder, vx_out: &mut VxStdout) -> (r: Result<(), VxError>)', '    ' + tail.strip(),
+               'main.rs::handle_input Ok arm from `let regexp = builder.build();` to `Ok(())`', props=['C07', 'C12'], pre=out_rules,
+               clauses=[Clause('cli.prints_the_build_result_and_one_newline', "final(vx_out).text@ == old(vx_out).text@ + build_text(*old(builder)) + seq!['\\n']", ['C12']),
+                        Clause('cli.success_after_printing', 'r is Ok', ['C12'])])
+    # the -f channel: every line of the file becomes a test case as it is
+    k2 = oi.find('Ok(file_content) =>')
+    if k2 < 0: raise X.LostAnchor('main.rs::obtain_input: Ok(file_content) arm')
+    ce, _, _ = X.closure_expr(oi[k2:], '.map(|it| ')
+    b.emit('''pub uninterp spec fn trimmed(s: Seq<char>, mode: int) -> Seq<char>;       // str::trim / trim_start / trim_end (not the identity)
+pub assume_specification [str::trim] (s: &str) -> (r: &str) ensures r@ == trimmed(s@, 0);
+pub assume_specification [str::trim_start] (s: &str) -> (r: &str) ensures r@ == trimmed(s@, 1);
+pub assume_specification [str::trim_end] (s: &str) -> (r: &str) ensures r@ == trimmed(s@, 2);
+#[verifier::external_body] pub fn vx_str_to_string(s: &str) -> (r: String) ensures r@ == s@ { unimplemented!() }''')
+    b.slice_fn('file_line', 'pub fn file_line(it: &str) -> (r: String)', '    ' + ce, 'main.rs::obtain_input closure |it| of `file_content.lines().map(..)`', props=['C07', 'C12'],
+               extra_rules=[('R4', r'\b(it(?:\.\w+\(\))*)\.to_string\(\)', r'vx_str_to_string(\1)', '&str -> String copy')],
+               clauses=[Clause('cli.file_line_is_kept_as_it_is', 'r@ == it@', ['C12'])])
     b.emit('} // verus!\nimpl std::fmt::Debug for Error { fn fmt(&self, f: &mut std::fmt::Formatter<\'_>) -> std::fmt::Result { unimplemented!() } }\nfn main() {}')
     b.trusted += ['clap attributes are stripped (R0): clap is assumed to fill Cli from the command line as the attribute text says and to apply value_parser',
                   'adjacent statement chunks of handle_input run back to back (sequential composition of slices)',
-                  'RegExpBuilder::from / with_syntax_highlighting / build are assumed (iterator chain / cfg(feature) / pipeline)']
+                  'RegExpBuilder::from / with_syntax_highlighting / build are assumed (iterator chain / cfg(feature) / pipeline)',
+                  'println!("{}", x) writes x and one line feed to standard output (R37; std); that standard output is not written anywhere else, and that main() turns Ok into exit status 0 and Err into 1, is read off main.rs (6 lines), not verified']
     return b
 
 # ---------------------------------------------------------------------------------------------------------------------
